@@ -48,6 +48,11 @@ def find_cm_class(tree):
     if w is None:
         raise Untranslatable("protect_via_deepcopy has no with-statement")
     call = w.items[0].context_expr
+    if isinstance(call, ast.Name):  # `cm = Cls()` ... `with cm:`
+        asg = [n for n in ast.walk(fn) if isinstance(n, ast.Assign) and len(n.targets) == 1 and isinstance(n.targets[0], ast.Name) and n.targets[0].id == call.id]
+        if len(asg) != 1:
+            raise Untranslatable("context manager object is not assigned exactly once")
+        call = asg[0].value
     if not (isinstance(call, ast.Call) and isinstance(call.func, ast.Name) and not call.args and not call.keywords):
         raise Untranslatable("with-item is not a plain class call")
     return next(n for n in tree.body if isinstance(n, ast.ClassDef) and n.name == call.func.id)
@@ -155,6 +160,72 @@ def compile_body(body, selfname, code, depth=0):
         raise Untranslatable(ast.unparse(st))
 
 
+def compile_function(fn, cls_name):
+    """protect_via_deepcopy -> pseudo-ops: ("call_new", local) | ("enter", local) | ("exit", local) | ("use",) |
+    ("branch", expr, target) | ("jump", target) | ("end",).  Locals are per nesting level (suffix added later)."""
+    code = []
+
+    def is_cm_call(e):
+        return isinstance(e, ast.Call) and isinstance(e.func, ast.Name) and e.func.id == cls_name and not e.args and not e.keywords
+
+    def is_copy_return(st):
+        return isinstance(st, ast.Return) and isinstance(st.value, ast.Call) and ast.unparse(st.value.func) in ("copy.deepcopy", "deepcopy")
+
+    def body(stmts, in_with):
+        for idx, st in enumerate(stmts):
+            line = st.lineno
+            if isinstance(st, ast.Expr) and isinstance(st.value, ast.Constant):
+                continue
+            if isinstance(st, ast.If) and isinstance(st.test, ast.Call) and isinstance(st.test.func, ast.Name) and st.test.func.id == "isinstance" and all(isinstance(x, ast.Return) for x in st.body) and not st.orelse:
+                continue  # immutable / module fast path: the values considered here are containers
+            if isinstance(st, ast.Assign) and len(st.targets) == 1 and isinstance(st.targets[0], ast.Name) and is_cm_call(st.value):
+                code.append(("call_new", st.targets[0].id, line))
+                continue
+            if isinstance(st, ast.If):
+                j = len(code)
+                code.append(None)
+                body(st.body, in_with)
+                if st.orelse:
+                    k = len(code)
+                    code.append(None)
+                    code[j] = ("fbranch", expr(st.test, "$none"), len(code), line)
+                    body(st.orelse, in_with)
+                    code[k] = ("fjump", len(code), line)
+                else:
+                    code[j] = ("fbranch", expr(st.test, "$none"), len(code), line)
+                continue
+            if isinstance(st, ast.With) and len(st.items) == 1 and st.items[0].optional_vars is None:
+                if in_with:
+                    raise Untranslatable("nested with in protect_via_deepcopy")
+                ce = st.items[0].context_expr
+                if is_cm_call(ce):
+                    name = "$cm"
+                    code.append(("call_new", name, line))
+                elif isinstance(ce, ast.Name):
+                    name = ce.id
+                else:
+                    raise Untranslatable(ast.unparse(ce))
+                code.append(("enter", name, line))
+                if not (st.body and is_copy_return(st.body[-1]) and not any(isinstance(x, ast.Return) for b in st.body[:-1] for x in ast.walk(b))):
+                    raise Untranslatable("with-body of protect_via_deepcopy must end with `return copy.deepcopy(...)`")
+                body(st.body[:-1], True)
+                code.append(("use", line))
+                code.append(("exit", name, st.end_lineno))
+                code.append(("freturn", line))
+                continue
+            if is_copy_return(st):
+                if in_with:
+                    raise Untranslatable("unexpected return inside with")
+                code.append(("use", line))
+                code.append(("freturn", line))
+                continue
+            raise Untranslatable(f"protect_via_deepcopy: {ast.unparse(st)[:80]}")
+
+    body(fn.body, False)
+    code.append(("fend", 0))
+    return code
+
+
 def translate(path):
     tree = ast.parse(open(path).read())
     cls = find_cm_class(tree)
@@ -174,6 +245,8 @@ def translate(path):
             raise Untranslatable(f"class-level statement: {ast.unparse(m)[:60]}")
     if "__enter__" not in methods or "__exit__" not in methods:
         raise Untranslatable("context manager without __enter__/__exit__")
+    fn = next(n for n in tree.body if isinstance(n, ast.FunctionDef) and n.name == "protect_via_deepcopy")
+    methods["$function"] = compile_function(fn, cls.name)
     return cls.name, methods, cls_locks
 
 
@@ -190,7 +263,10 @@ def relocate(code, base):
 
 
 def thread_program(methods, depth):
+    """the thread's program: the compiled body of protect_via_deepcopy with the class's methods inlined; every
+    `copy.deepcopy` is the abstract step USE, inside which the function is re-entered `depth` times."""
     prog = []
+    fcode = methods["$function"]
 
     def emit(code, kind):
         base = len(prog)
@@ -204,20 +280,65 @@ def thread_program(methods, depth):
             else:
                 prog.append(ins)
 
+    def loc(name, d):
+        return f"{name}@{d}"
+
+    def rename(e, d):
+        """function-level locals are per nesting level"""
+        if isinstance(e, tuple):
+            if e and e[0] == "local":
+                return ("local", loc(e[1], d))
+            return tuple(rename(x, d) for x in e)
+        if isinstance(e, list):
+            return [rename(x, d) for x in e]
+        return e
+
     def pvd(d):
         prog.append(("enter_region", 0))
-        if "__new__" in methods:
-            emit(methods["__new__"], "new")
-        else:
-            prog.append(("alloc_self", 0))
-        if "__init__" in methods:
-            emit(methods["__init__"], "init")
-        emit(methods["__enter__"], "enter")
-        prog.append(("use", 0))
-        if d > 0:
-            pvd(d - 1)
-            prog.append(("use", 0))
-        emit(methods["__exit__"], "exit")
+        start = len(prog)
+        patches = []  # (index in prog, kind, target index in fcode)
+        fpos = {}  # fcode index -> prog index
+        returns = []
+        for fi, ins in enumerate(fcode):
+            fpos[fi] = len(prog)
+            op = ins[0]
+            if op == "call_new":
+                if "__new__" in methods:
+                    emit(methods["__new__"], "new")
+                else:
+                    prog.append(("alloc_self", 0))
+                if "__init__" in methods:
+                    emit(methods["__init__"], "init")
+                prog.append(("set_local_from_self", loc(ins[1], d), ins[2]))
+            elif op == "enter":
+                prog.append(("set_self_from_local", loc(ins[1], d), ins[2]))
+                emit(methods["__enter__"], "enter")
+            elif op == "exit":
+                prog.append(("set_self_from_local", loc(ins[1], d), ins[2]))
+                emit(methods["__exit__"], "exit")
+            elif op == "use":
+                prog.append(("use", 0))
+                if d > 0:
+                    pvd(d - 1)
+                    prog.append(("use", 0))
+            elif op == "fbranch":
+                patches.append((len(prog), "branch", ins[2], rename(ins[1], d), ins[3]))
+                prog.append(None)
+            elif op == "fjump":
+                patches.append((len(prog), "jump", ins[1], None, ins[2]))
+                prog.append(None)
+            elif op == "freturn":
+                returns.append(len(prog))
+                prog.append(None)
+            elif op == "fend":
+                pass
+            else:
+                raise Untranslatable(op)
+        end = len(prog)
+        for idx, kind, target, e, line in patches:
+            prog[idx] = ("branch", e, fpos[target], line) if kind == "branch" else ("jump", fpos[target], line)
+        for idx in returns:
+            prog[idx] = ("jump", end, 0)
         prog.append(("leave_region", 0))
 
     pvd(depth)
@@ -231,7 +352,7 @@ def thread_program(methods, depth):
 def check(methods, cls_locks, nthreads, depth, max_preempt=None, timeout_s=300, prefix=None, fix_init=None, goal="violation"):
     progs = [thread_program(methods, depth) for _ in range(nthreads)]
     fields = sorted({ins[2] for p in progs for ins in p if ins[0] in ("set_field", "add_field")})
-    locals_ = sorted({ins[1] for p in progs for ins in p if ins[0] == "set_local"})
+    locals_ = sorted({ins[1] for p in progs for ins in p if ins[0] in ("set_local", "set_local_from_self", "set_self_from_local")})
     clsattrs = sorted({ins[1] for p in progs for ins in p if ins[0] == "set_clsattr"} | set(cls_locks))
     nobj = max(1, nthreads * (depth + 1))
     nlock = len(cls_locks) + nobj
@@ -368,6 +489,12 @@ def check(methods, cls_locks, nthreads, depth, max_preempt=None, timeout_s=300, 
                         eff += [b[f"l{i}_{ins[1]}"] == a["nobj"], b["nobj"] == a["nobj"] + 1]
                     else:
                         eff.append(b[f"l{i}_{ins[1]}"] == ev(ins[2], a, i))
+                elif op == "set_local_from_self":
+                    ch.add(f"l{i}_{ins[1]}")
+                    eff.append(b[f"l{i}_{ins[1]}"] == a[f"self{i}"])
+                elif op == "set_self_from_local":
+                    ch.add(f"self{i}")
+                    eff.append(b[f"self{i}"] == a[f"l{i}_{ins[1]}"])
                 elif op == "set_clsattr":
                     ch |= {"c_" + ins[1], "hc_" + ins[1]}
                     if ins[2] == ("alloc",):
